@@ -82,6 +82,9 @@ pub fn vf_handle_request<L, C, K>(api: &Arc<Owner<L, C, K>>, val: JsonValue, Gho
 pub fn vf_json_empty_array() -> (r: JsonValue) ensures spec_is_empty_batch(r) { unimplemented!() }
 #[verifier::external_body]
 pub fn vf_api_shared_key<L, C, K>(api: &Arc<Owner<L, C, K>>) -> (r: Option<SecretKey>) { unimplemented!() }
+// `api.shared_key.clone()`: the Owner object's own key cell — not the listener's session-key cell
+#[verifier::external_body]
+pub fn vf_api_key_cell<L, C, K>(api: &Arc<Owner<L, C, K>>) -> (r: KeyCell) { unimplemented!() }
 
 // the remaining one-line / formatting helpers of OwnerV3Helpers (string matching on JSON, error re-formatting, cell updates)
 pub struct OwnerV3Helpers;
